@@ -46,4 +46,5 @@ def main() -> None:
     net.finish("bounded", f"all histories of length size+3 (quick) / size+4 over table sizes 1..{max_size} and alphabets of size+2 (empty prefix included), for the name, prefix and datatype rules",
                "each case = (rule, size, history); non-trivial = at least two distinct keys; enumeration is exhaustive up to the time budget")
 if __name__ == "__main__":
-    main()
+    from common import run_main
+    run_main(main, "C05")
